@@ -59,6 +59,7 @@ func newRollingSetup(w *World, ro RollingOpts) *Setup {
 		tp.Kinds = append(tp.Kinds, r.Res)
 	}
 	tp.SetNamespace = t.Pick(2, "setns") == 1
+	tp.Descending = t.Pick(3, "descending") == 2
 	switch ro.OwnUpdated {
 	case 0:
 		tp.OwnUpdated = t.Pick(4, "ownupdated") == 3
@@ -117,6 +118,7 @@ func newRollingSetup(w *World, ro RollingOpts) *Setup {
 	w.Cfg["gensel"] = fmt.Sprint(cfg.GenerateSelector)
 	w.Cfg["ownUpdated"] = fmt.Sprint(tp.OwnUpdated)
 	w.Cfg["second"] = fmt.Sprint(len(cfg.Children) > 1)
+	w.Cfg["hookOrder"] = map[bool]string{true: "descending", false: "ascending"}[tp.Descending]
 	return s
 }
 
